@@ -24,6 +24,11 @@ pub trait Handler: Send + Sync + 'static {
     fn choose(&self, label: &'static str, n: usize) -> usize;
     /// Run `task` to completion as a new logical thread of the harness.
     fn spawn(&self, task: BoxedTask);
+    /// The calling thread cannot make progress until some *other* controlled thread has taken a
+    /// step (used by [`point_until`] while a lock is held elsewhere).  Default: a plain point.
+    fn wait_for_others(&self, label: &'static str) {
+        self.point(label)
+    }
 }
 
 static HANDLER: OnceLock<Box<dyn Handler>> = OnceLock::new();
@@ -46,6 +51,22 @@ pub fn point(label: &'static str) {
     if let Some(h) = HANDLER.get() {
         if h.controlled() {
             h.point(label);
+        }
+    }
+}
+
+/// A schedule point placed immediately before a *blocking* lock acquisition: after the point the
+/// thread waits cooperatively until `acquirable()` (a try-lock probe that drops its guard at once)
+/// succeeds, so that the real acquisition that follows never blocks the thread holding the
+/// harness's baton.  This is what allows schedule points *inside* critical sections.
+#[inline]
+pub fn point_until(label: &'static str, mut acquirable: impl FnMut() -> bool) {
+    if let Some(h) = HANDLER.get() {
+        if h.controlled() {
+            h.point(label);
+            while !acquirable() {
+                h.wait_for_others(label);
+            }
         }
     }
 }
